@@ -447,7 +447,11 @@ Section WithV6.
       | _ => None
       end
     else if code =? AS_PATH then
-      if aspath_valid (S len) true d then bin else None
+      (* RFC 7606 s7.2: a segment of zero ASes is malformed *)
+      if aspath_valid (S len) false d then bin else None
+    else if code =? NEXTHOP then
+      (* RFC 4271 s5.1.3: a 4-octet IPv4 address *)
+      if Nat.eqb len 4 then bin else None
     else if code =? ATOMIC_AGGREGATE then
       match d with [] => bin | _ => None end
     else if code =? AGGREGATOR then
@@ -457,11 +461,12 @@ Section WithV6.
       | _ => None
       end
     else if (code =? COMMUNITY) || (code =? CLUSTER_LIST) then
-      if Nat.eqb (Nat.modulo len 4) 0 then bin else None
+      (* RFC 7606 s7.8, s7.10, s7.14, RFC 8092 s5: a non-zero multiple of the element size *)
+      if negb (Nat.eqb len 0) && Nat.eqb (Nat.modulo len 4) 0 then bin else None
     else if code =? EXTENDED_COMMUNITY then
-      if Nat.eqb (Nat.modulo len 8) 0 then bin else None
+      if negb (Nat.eqb len 0) && Nat.eqb (Nat.modulo len 8) 0 then bin else None
     else if code =? LARGE_COMMUNITY then
-      if Nat.eqb (Nat.modulo len 12) 0 then bin else None
+      if negb (Nat.eqb len 0) && Nat.eqb (Nat.modulo len 12) 0 then bin else None
     else if code =? AS4_PATH then
       if Nat.eqb (Nat.modulo len 2) 0 && Nat.leb 6 len && aspath_valid (S len) false d then bin else None
     else if code =? AS4_AGGREGATOR then
@@ -512,7 +517,11 @@ Section WithV6.
     end.
 
   Definition seg_ok (s : Z * list N) : bool :=
-    (1 <=? fst s)%Z && (fst s <=? 4)%Z && Nat.leb (length (snd s)) 255.
+    (1 <=? fst s)%Z && (fst s <=? 4)%Z && Nat.leb (length (snd s)) 255 && Nat.leb 1 (length (snd s)).
+
+  (* a list attribute with no element is refused, as on the wire (RFC 7606) *)
+  Definition nonempty_bin (code : N) (b : list N) : option attr :=
+    match b with [] => None | _ => new_with_bin code b end.
 
   (* attr_from_api as it was before the fix commit (see known_findings.json,
      C17-1..C17-4): kept for the [_refuted] witnesses; it is no longer what the
@@ -609,7 +618,7 @@ Section WithV6.
         | Some a => Ok (new_with_bin AGGREGATOR (be32 asn ++ be32 a))
         | None => Ok None
         end
-    | ACommunities l => Ok (new_with_bin COMMUNITY (flat_map be32 l))
+    | ACommunities l => Ok (nonempty_bin COMMUNITY (flat_map be32 l))
     | AOriginatorId s =>
         match ip4_of_string s with
         | Some a => Ok (new_with_value ORIGINATOR_ID a)
@@ -617,16 +626,16 @@ Section WithV6.
         end
     | AClusterList ids =>
         match parse_ids ids with
-        | Some b => Ok (new_with_bin CLUSTER_LIST b)
+        | Some b => Ok (nonempty_bin CLUSTER_LIST b)
         | None => Ok None
         end
     | AExtCommunities l =>
         match write_extcoms l with
-        | Some b => Ok (new_with_bin EXTENDED_COMMUNITY b)
+        | Some b => Ok (nonempty_bin EXTENDED_COMMUNITY b)
         | None => Ok None
         end
     | ALargeCommunities l =>
-        Ok (new_with_bin LARGE_COMMUNITY
+        Ok (nonempty_bin LARGE_COMMUNITY
               (flat_map (fun t => be32 (fst (fst t)) ++ be32 (snd (fst t)) ++ be32 (snd t)) l))
     | AOther => Ok None
     end.
@@ -676,7 +685,8 @@ Section WithV6.
     | None => 0
     end.
 
-  (* Attribute::as_path_length (usize accumulator after the C02 fix) *)
+  (* Attribute::as_path_length (usize accumulator; since the repair of the helpers it
+     stops at a truncated segment header and ignores unknown segment types) *)
   Fixpoint aspl (fuel : nat) (l : list N) (acc : N) : res N :=
     match l with
     | [] => Ok acc
@@ -685,13 +695,12 @@ Section WithV6.
         | O => Panic P_FUEL
         | S f =>
             match r with
-            | [] => Panic P_READ_EOF
+            | [] => Ok acc
             | n :: r' =>
                 let rest := skipn (4 * N.to_nat n) r' in
                 if t =? 1 then aspl f rest (acc + 1)
                 else if t =? 2 then aspl f rest (acc + n)
-                else if (t =? 3) || (t =? 4) then aspl f rest acc
-                else Panic P_UNREACHABLE
+                else aspl f rest acc
             end
         end
     end.
